@@ -9,7 +9,7 @@ import XotModel.Lemmas.ForestBasic
 import XotModel.Lemmas.FspecDetach
 import XotModel.Lemmas.FspecAppend
 import XotModel.Lemmas.FspecContent
-import XotModel.Lemmas.FspecSame
+import XotModel.Lemmas.FspecSamePrepend
 
 namespace XotModel.Props
 open XotModel XotModel.Spec
@@ -98,46 +98,52 @@ theorem C05_samepos_append {f : Forest} {p c : Nat} (hc : f.structureCheck (some
 
 /-! ### prepend, insert_after, insert_before
 
-  `insert_after` is proved in full.  `prepend` and `insert_before` are proved when the moved node
-  is not, before the call, a child of the destination parent (`_partial`: the extra hypothesis is
-  exactly "the node comes from another child list or is a parentless tree"; the remaining case —
-  reordering within one child list — is covered by the correspondence suite `fspec`). -/
+  All geometries: the moved node may be a parentless tree, a child of another node or a child of
+  the destination parent itself (a reordering within one child list), including the case of
+  `insert_after` where the reference node is the very text node that the merge at the old place
+  consumes.  For each: the content statement with the survivor rule of the property text, and
+  the handle-for-handle statement with xot's rule (`Keep.resident`: the moved node never
+  survives a merge — the recorded finding `C05:text-placed-before-text-keeps-later-node`). -/
 
-/-- `prepend(p, c)`, content. -/
-theorem C05_prepend_partial {f : Forest} {p c : Nat} (inv : f.Inv) (norm : f.Normal)
-    (hfar : f.parent? c ≠ some p) (hok : (f.prepend p c).2 = .ok) :
+theorem C05_prepend {f : Forest} {p c : Nat} (inv : f.Inv) (norm : f.Normal)
+    (hok : (f.prepend p c).2 = .ok) :
     (f.prepend p c).1.content = (specMove Keep.earlier (.firstNormalChildOf p) c f).content :=
-  prepend_content_far inv norm hfar hok
+  prepend_content inv norm hok
 
-/-- `prepend(p, c)`, handle for handle, with xot's survivor rule. -/
-theorem C05_prepend_resident_partial {f : Forest} {p c : Nat} (inv : f.Inv) (norm : f.Normal)
-    (hfar : f.parent? c ≠ some p) (hok : (f.prepend p c).2 = .ok) :
+theorem C05_prepend_resident {f : Forest} {p c : Nat} (inv : f.Inv) (norm : f.Normal)
+    (hok : (f.prepend p c).2 = .ok) :
     (f.prepend p c).1 = specMove (Keep.resident c) (.firstNormalChildOf p) c f :=
-  prepend_spec_far inv norm hfar hok
+  prepend_spec inv norm hok
 
-/-- `insert_after(r, c)`: all geometries (the node may come from anywhere, including the child
-    list of `r`'s parent, including the case where `r` itself is the text node consumed by the
-    merge at the old place). Content: -/
 theorem C05_insertAfter {f : Forest} {r c : Nat} (inv : f.Inv) (norm : f.Normal)
     (hok : (f.insertAfter r c).2 = .ok) :
     (f.insertAfter r c).1.content = (specMove Keep.earlier (.after r) c f).content :=
   insertAfter_content inv norm hok
 
-/-- … and handle for handle, with xot's survivor rule. -/
 theorem C05_insertAfter_resident {f : Forest} {r c : Nat} (inv : f.Inv) (norm : f.Normal)
     (hok : (f.insertAfter r c).2 = .ok) :
     (f.insertAfter r c).1 = specMove (Keep.resident c) (.after r) c f :=
   insertAfter_spec inv norm hok
 
-theorem C05_insertBefore_partial {f : Forest} {r c : Nat} (inv : f.Inv) (norm : f.Normal)
-    (hfar : f.parent? c ≠ f.parent? r) (hok : (f.insertBefore r c).2 = .ok) :
+theorem C05_insertBefore {f : Forest} {r c : Nat} (inv : f.Inv) (norm : f.Normal)
+    (hok : (f.insertBefore r c).2 = .ok) :
     (f.insertBefore r c).1.content = (specMove Keep.earlier (.before r) c f).content :=
-  insertBefore_content_far inv norm hfar hok
+  insertBefore_content inv norm hok
 
-theorem C05_insertBefore_resident_partial {f : Forest} {r c : Nat} (inv : f.Inv) (norm : f.Normal)
-    (hfar : f.parent? c ≠ f.parent? r) (hok : (f.insertBefore r c).2 = .ok) :
+theorem C05_insertBefore_resident {f : Forest} {r c : Nat} (inv : f.Inv) (norm : f.Normal)
+    (hok : (f.insertBefore r c).2 = .ok) :
     (f.insertBefore r c).1 = specMove (Keep.resident c) (.before r) c f :=
-  insertBefore_spec_far inv norm hfar hok
+  insertBefore_spec inv norm hok
+
+/-- Non-vacuity and the hard corner: `x<b/>y<c/>` (all children of one element), `insert_after(y, b)`:
+    the old-site merge consumes the reference `y`; the call succeeds and gives `xy<b/><c/>`. -/
+example :
+    let f : Forest := { roots := [.node 0 (.element 2) [.node 1 (.text ['x']) [], .node 2 (.element 3) [],
+                          .node 3 (.text ['y']) [], .node 4 (.element 6) []]], next := 5 }
+    f.inv = true ∧ (f.insertAfter 3 2).2 = .ok ∧
+      (f.insertAfter 3 2).1.content =
+        [.node (.element 2) [.node (.text ['x', 'y']) [], .node (.element 3) [], .node (.element 6) []]] := by
+  decide
 
 /-- Same position, the other three moves: a call naming the place the node already occupies
     returns the forest itself. -/
